@@ -1061,8 +1061,12 @@ pub fn ill_typed(p: &mut Prng) -> String {
         "\npub fn bad_arith(a: u8, b: bool) -> u8 { a + b }\n",
         "\nconst ZZ: u8 = 3u16;\n",
         "\npub fn dup_param(a: u8, a: u8) -> u8 { a }\n",
+        // a public function without parameters, reached from another public function
+        "\npub fn no_params() -> u8 { 7u8 }\npub fn calls_no_params(a: u8) -> u8 { a ^ no_params() }\n",
+        "\npub fn lonely() -> bool { true }\n",
     ];
-    let n = g.p.range(2, 4) as usize;
+    // one to four independent errors; with exactly one, acceptance hinges on that single rule
+    let n = g.p.range(1, 4) as usize;
     let mut idx: Vec<usize> = (0..errs.len()).collect();
     g.p.shuffle(&mut idx);
     for &i in idx.iter().take(n) {
